@@ -183,6 +183,19 @@ CLAIMED = {
             "have to start without panic and serve the cache's or the service's value. Power loss is decided on AtomicFile.tla given the validated call order.",
             "TLC exhaustive check of Store.tla (cache configuration) + TLC trace validation (random, TLC-simulated, malformed-input histories) + strace fault/kill injection on FileCache.Write validated against AtomicFile.tla",
             "DESIGN.md §4 C13"),
+    "C20": ("exploration",
+            "Fields.tla is the decision table of the struct-tag plumbing written from the documented behaviour (which secrets are requested, what "
+            "each field kind receives, what is rejected up front, that a failing field is reported and does not stop the others). The harness "
+            "builds every struct shape of up to 2 (thorough: 3) fields over 12 field kinds and 2 secret names with reflect.StructOf, for 3 "
+            "prefixes and every combination of secret value forms (JSON object / JSON number / undecodable bytes / missing), pushes each through the "
+            "real ParseFields + Fields.Apply and through NewStore(Structs), and records acceptance or the rejection reason, the names requested, "
+            "what every field holds afterwards, whether an error was reported, whether overwriting a populated []byte field changes what the "
+            "store serves, and whether Secret fields follow the next poll while copies keep their value; plus random shapes of 3-6 fields. TLC "
+            "(FieldsTrace) recomputes every one of these from Fields.tla for every case.",
+            "Universality over struct shapes is by bounded enumeration plus generation; prefixes and names are clean slash-separated paths; "
+            "unexported or name-ambiguous embedded fields are not generated.",
+            "TLA+ decision table (Fields.tla) as oracle: TLC validates one trace line per run-time-generated struct shape executed on the real code",
+            "DESIGN.md §4 C20"),
 }
 
 ALL = ["C%02d" % i for i in range(1, 21)]
